@@ -29,7 +29,13 @@ import c13_tie as tie
 import c13_sweep as sweep
 from common import cz, cbool, clist, cpair, cn
 
-THEOREMS = ['C13_fill_geometry_den']
+THEOREMS = ['C13_dedup_merges_equal', 'C13_dedup_merges_tested',
+            'C13_desc_eqb_sound', 'C13_dedup_survivor_smallest',
+            'C13_dedup_survivor_minimal', 'C13_dedup_covers',
+            'C13_dedup_idempotent', 'C13_renumber_den', 'C13_dedup_den',
+            'C13_dedup_helper_merge_refuted', 'C13_inline_den',
+            'C13_inline_model', 'C13_inline_total',
+            'C13_acyclic_unique_model', 'C13_fill_geometry_den']
 TRUSTED = [
     'hand-written model coq/C13/Model.v (modelled, tied by execution only)',
     'Python dict lookup by hash then ==: modelled as "first stored key equal '
@@ -70,9 +76,46 @@ m1 1001 1.0
 
 # ---------------------------------------------------------------------------
 
+# the tables of C13_dedup_helper_merge_refuted (coq/C13/ProofsDedup.v
+# helper_surfs / helper_volus), as construct_volume_t4 returns them
+WITNESS_SURFS = [(1, ('PLANEX', (1.0,))), (2, ('PLANEY', (0.0,))),
+                 (3, ('PLANEY', (0.0,))), (5, ('PLANEX', (1.0,))),
+                 (6, ('PLANEX', (-1.0,)))]
+WITNESS_VOLS = [(4, ([2], [3], None, True)), (6, ([], [1], None, True)),
+                (5, ([2], [3], ('UNION', (6,)), True)),
+                (1, ([2], [3], ('UNION', (6,)), False))]
+
+
+def witness_tables():
+    '''What construct_volume_t4 hands to the de-duplication step for the
+    witness deck.'''
+    from t4_geom_convert.Kernel.FileHandlers.Writer import WriteT4Geometry as W
+    real = W.construct_volume_t4
+    cap = {}
+
+    def spy(*args):
+        out = real(*args)
+        cap['surfs'] = [(k, (v.type_surface.name,
+                             tuple(float(x) for x in v.param_surface)))
+                        for k, v in out[2].items()]
+        cap['vols'] = [(k, (sorted(v.pluses), sorted(v.minuses), v.ops,
+                            v.fictive)) for k, v in out[0].items()]
+        cap['union_ids'] = tuple(out[4])
+        return out
+    W.construct_volume_t4 = spy
+    try:
+        impl.convert(WITNESS_HELPER, ['--skip-deduplication'])
+    finally:
+        W.construct_volume_t4 = real
+    return cap
+
+
 def run_witnesses(res):
     '''Known finding helper_plane_dedup_merge: KeyError with the default
     options, success with --skip-deduplication.'''
+    cap = witness_tables()
+    same = (cap.get('surfs') == WITNESS_SURFS and cap.get('vols') == WITNESS_VOLS
+            and cap.get('union_ids') == (5, 6))
     bad = impl.convert(WITNESS_HELPER, [])
     good = impl.convert(WITNESS_HELPER, ['--skip-deduplication'])
     res.seen(('witness', 'helper'), nontrivial=True)
@@ -86,6 +129,16 @@ def run_witnesses(res):
             {'input': {'deck': WITNESS_HELPER, 'vectors': [[], ['--skip-deduplication']]},
              'observed': [repr(bad), repr(good)]},
             cls='helper_plane_dedup_merge', found_input=True)
+        res.obligation('tie:witness (the tables of C13_dedup_helper_merge_'
+                       'refuted are the ones the implementation builds for the '
+                       'witness deck)', same, f'captured {cap}')
+        if not same:
+            res.violation('correspondence',
+                          'the tables in C13_dedup_helper_merge_refuted are '
+                          'not what construct_volume_t4 returns for the '
+                          'witness deck', {'observed': cap,
+                                           'theorem_or_correspondence':
+                                           'tie:witness'}, found_input=False)
 
 
 def tie_eq(res, rng, n):
